@@ -19,7 +19,11 @@ func Pow10(n int) sdk.Int {
 
 // AddApp registers an app and returns its id.
 func (c *Chain) AddApp(name string) uint64 {
-	err := c.App.AssetKeeper.AddAppRecords(c.Ctx, assettypes.AppData{Name: name, ShortName: name, MinGovDeposit: sdk.NewInt(0), GovTimeInSeconds: 0, GenesisToken: []assettypes.MintGenesisToken{}})
+	short := name
+	if len(short) > 5 {
+		short = short[:5]
+	}
+	err := c.App.AssetKeeper.AddAppRecords(c.Ctx, assettypes.AppData{Name: name, ShortName: short, MinGovDeposit: sdk.NewInt(0), GovTimeInSeconds: 0, GenesisToken: []assettypes.MintGenesisToken{}})
 	if err != nil {
 		panic(fmt.Errorf("AddApp %s: %w", name, err))
 	}
